@@ -44,7 +44,7 @@ Definition check_open_dir (o : wopts) (dp name : str) : bool :=
   else true.
 
 Definition check_file (o : wopts) (dp name : str) : bool :=
-  let full := dp ++ [slash] ++ name in
+  let full := combine dp name in
   if opt_true (o_exclude o) (fun p => name_match (o_case o) p name) then false
   else if opt_true (o_exclude_glob o) (fun p => glob_match (o_case o) false p full) then false
   else if opt_true (o_filter o) (fun p => negb (name_match (o_case o) p name)) then false
